@@ -328,3 +328,112 @@ Proof.
   subst x y. rewrite (resolveXYAxes_frame (col3 m 0) (col3 m 1) s t k U0 U1 O Hs Ht Bs Ws Bt Wt). rewrite C.
   destruct (frame2quat_cols p U) as [E|E]; fold m in E; rewrite E; auto.
 Qed.
+
+(* ------------------------------------------------------------------------------------------ *)
+(* zaxis *)
+Lemma Ratan2_circle (y x : R) : x * x + y * y = 1 -> 0 <= y -> sin (Ratan2 y x) = y /\ cos (Ratan2 y x) = x.
+Proof.
+  intros C Y. unfold Ratan2.
+  destruct (Rlt_dec 0 x) as [P|NP].
+  - assert (S1 : 1 + Rsqr (y / x) = Rsqr (/ x)) by (unfold Rsqr; transitivity ((x * x + y * y) * (/ x * / x)); [field; lra | rewrite C; ring]).
+    assert (IP : 0 < / x) by (apply Rinv_0_lt_compat; exact P).
+    rewrite sin_atan, cos_atan, S1, sqrt_Rsqr by lra. split; field; lra.
+  - destruct (Rlt_dec x 0) as [N|NN].
+    + destruct (Rle_dec 0 y) as [_|F]; [|contradiction].
+      assert (S1 : 1 + Rsqr (y / x) = Rsqr (/ x)) by (unfold Rsqr; transitivity ((x * x + y * y) * (/ x * / x)); [field; lra | rewrite C; ring]).
+      assert (IN : / x < 0) by (apply Rinv_lt_0_compat; exact N).
+      rewrite neg_sin, neg_cos, sin_atan, cos_atan, S1, sqrt_Rsqr_abs, (Rabs_left _ IN). split; field; lra.
+    + assert (X0 : x = 0) by lra. subst x. assert (Y1 : y = 1) by nra. subst y.
+      destruct (Rlt_dec 0 1) as [_|F]; [|lra]. rewrite sin_PI2, cos_PI2. split; reflexivity.
+Qed.
+
+Lemma z2quat_core (c0 c1 h z : R) : c0 * c0 + c1 * c1 = 1 -> z = 0 ->
+  let q : quat R := (cos h, c0 * sin h, c1 * sin h, z * sin h) in
+  unitq q /\ col3 (quat2Mat q) 2 = (sin (2 * h) * c1, - (sin (2 * h) * c0), cos (2 * h)).
+Proof.
+  intros C Z q. subst z. subst q. rewrite quat2Mat_is_reg. unfold unitq, qnorm2, quat2Mat_reg, col3.
+  rewrite sin_2a, cos_2a. pose proof (sin2cos2 h) as SC. set (s := sin h) in *. set (c := cos h) in *.
+  split.
+  - transitivity (c * c + s * s * (c0 * c0 + c1 * c1)); [ring | rewrite C; lra].
+  - apply vec_ext; try ring.
+    transitivity (c * c - s * s * (c0 * c0 + c1 * c1)); [ring | rewrite C; ring].
+Qed.
+
+(* mjuu_z2quat on a unit vector v: the result is a unit quaternion with zero z component (rotation axis in the xy plane:
+   the minimal rotation) that maps the z axis onto v.  sig2 = v0^2 + v1^2 is the squared sine of the angle; the hypothesis
+   excludes 0 < sig2 < mjEPS (where the C code treats v as +-z) and the mjEPS window of mjuu_normvec around 1 *)
+Lemma z2quat_spec (v : vec3 R) : unitv v ->
+  let sig2 := fst (fst v) * fst (fst v) + snd (fst v) * snd (fst v) in
+  (sig2 = 0 \/ (mjEPS <= sig2 /\ (sqrt sig2 = 1 \/ mjEPS < Rabs (sqrt sig2 - 1)))) ->
+  let q := z2quat v in
+  unitq q /\ col3 (quat2Mat q) 2 = v /\ snd q = 0.
+Proof.
+  intros U sig2 H q. dv v. cbn [fst snd] in sig2. unfold unitv, dot3 in U. num_R.
+  pose proof mjEPS_pos as EP.
+  assert (CD : dot3 (cross (T:=R) (nzero, nzero, none) (v0, v1, v2)) (cross (T:=R) (nzero, nzero, none) (v0, v1, v2)) = sig2)
+    by (unfold cross, dot3, sig2; num_R; ring).
+  assert (T10 : Rdec 1 (-10) = / 10000000000) by (unfold Rdec; replace (10 ^ 10)%Z with 10000000000%Z by reflexivity; field).
+  subst q. unfold z2quat, ntwo.
+  destruct H as [Z|[B W]].
+  - (* v = +-z *)
+    assert (V0 : v0 = 0) by (unfold sig2 in Z; nra). assert (V1 : v1 = 0) by (unfold sig2 in Z; nra). subst v0 v1.
+    rewrite normvec3_small by (rewrite CD; unfold sig2; lra).
+    num_R. rewrite T10. destruct (Rltb 0 (/ 10000000000)) eqn:E; [|apply Rltb_false in E; lra].
+    destruct (Ratan2_circle 0 v2) as [S C]; [lra | lra|].
+    destruct (z2quat_core 1 0 (Ratan2 0 v2 / 2) 0) as [UQ COL]; [ring | reflexivity|].
+    replace (2 * (Ratan2 0 v2 / 2)) with (Ratan2 0 v2) in COL by field. rewrite S, C in COL.
+    split; [exact UQ|]. split; [rewrite COL; apply vec_ext; ring | cbn [snd]; ring].
+  - (* regular arm *)
+    assert (S2 : 0 < sig2) by lra.
+    assert (SP : 0 < sqrt sig2) by (apply sqrt_lt_R0; exact S2).
+    assert (SS : sqrt sig2 * sqrt sig2 = sig2) by (apply sqrt_sqrt; lra).
+    destruct (normvec3_spec (cross (T:=R) (nzero, nzero, none) (v0, v1, v2))) as (E & UC & L);
+      [rewrite CD; exact B | unfold norm3; num_R; rewrite CD; exact W|].
+    rewrite E. unfold norm3. num_R. rewrite CD, T10.
+    destruct (Rltb (sqrt sig2) (/ 10000000000)) eqn:E10.
+    { apply Rltb_true in E10. rewrite mjEPS_R in B. assert (sig2 < / 10000000000 * / 10000000000) by nra. lra. }
+    unfold cross, scl3, norm3. num_R.
+    replace (dot3 (T:=R) (0 * v2 - 1 * v1, 1 * v0 - 0 * v2, 0 * v1 - 0 * v0) (0 * v2 - 1 * v1, 1 * v0 - 0 * v2, 0 * v1 - 0 * v0)) with sig2
+      by (unfold dot3, sig2; num_R; ring).
+    destruct (Ratan2_circle (sqrt sig2) v2) as [S C]; [rewrite SS; unfold sig2; lra | lra|].
+    destruct (z2quat_core ((0 * v2 - 1 * v1) * / sqrt sig2) ((1 * v0 - 0 * v2) * / sqrt sig2) (Ratan2 (sqrt sig2) v2 / 2) ((0 * v1 - 0 * v0) * / sqrt sig2)) as [UQ COL].
+    { transitivity ((v0 * v0 + v1 * v1) * (/ sqrt sig2 * / sqrt sig2)); [ring|]. fold sig2. rewrite <- SS at 1. field. lra. }
+    { ring. }
+    replace (2 * (Ratan2 (sqrt sig2) v2 / 2)) with (Ratan2 (sqrt sig2) v2) in COL by field. rewrite S, C in COL.
+    split; [exact UQ|]. split; [rewrite COL; apply vec_ext; field; lra | cbn [snd]; ring].
+Qed.
+
+Lemma resolveZAxis_spec (z : vec3 R) :
+  mjEPS <= dot3 z z -> (norm3 z = 1 \/ mjEPS < Rabs (norm3 z - 1)) ->
+  let v := scl3 z (/ norm3 z) in
+  let sig2 := fst (fst v) * fst (fst v) + snd (fst v) * snd (fst v) in
+  (sig2 = 0 \/ (mjEPS <= sig2 /\ (sqrt sig2 = 1 \/ mjEPS < Rabs (sqrt sig2 - 1)))) ->
+  exists q : quat R, resolveZAxis z = Some q /\ unitq q /\ col3 (quat2Mat q) 2 = v /\ snd q = 0.
+Proof.
+  intros B W v sig2 H. destruct (normvec3_spec z B W) as (E & U & L). fold v in E, U.
+  unfold resolveZAxis. rewrite E.
+  destruct (norm3 z <? mjEPS)%num eqn:E1; [num_R; apply Rltb_true in E1; pose proof mjEPS_pos; lra|].
+  exists (z2quat v). split; [reflexivity|]. apply z2quat_spec; assumption.
+Qed.
+Lemma resolveZAxis_small (z : vec3 R) : dot3 z z < mjEPS -> resolveZAxis z = None.
+Proof.
+  intros B. unfold resolveZAxis. rewrite (normvec3_small z B). num_R.
+  destruct (Rltb 0 mjEPS) eqn:E; [reflexivity | apply Rltb_false in E; pose proof mjEPS_pos; lra].
+Qed.
+
+(* ------------------------------------------------------------------------------------------ *)
+(* fusing (mass-property algebra only): the tensor of a set of geoms about ANY point c is its tensor about its own centre
+   of mass c2 plus the point-mass term of the total mass at c2 - c; hence replacing the set by one lumped body
+   (mass M at c2 with that central tensor) changes neither the mass, nor the first moment, nor the tensor about c *)
+Lemma lumped_equivalent (l : list (cgeom R)) (c : vec3 R) : sumM l <> 0 ->
+  let M := sumM l in
+  let c2 := scl3 (sumMP l) (/ M) in
+  scl3 c2 M = sumMP l /\
+  sum6 (map (tensorAbout c) l) = add6 (sum6 (map (tensorAbout c2) l)) (offcenter M (sub3 c2 c)).
+Proof.
+  intros NZ M c2. split.
+  - subst c2. destruct (sumMP l) as [[s0 s1] s2]. unfold scl3. num_R. apply vec_ext; field; exact NZ.
+  - rewrite (sum_offcenter_shift l c), (sum_offcenter_shift l c2). subst c2. fold M.
+    destruct (sumMP l) as [[s0 s1] s2]. dv c. destruct (sum6 (map _ l)) as [[[[[t0 t1] t2] t3] t4] t5].
+    unfold scl3, sub3, add6, sub6, offcenter. iR. apply sym_ext; field; exact NZ.
+Qed.
